@@ -41,6 +41,9 @@ def rundemo():
         return r.returncode == 0
     shutil.copy(f"{src}/demo_test.go", f"{wt}/{pkgdir}/zz_seed_demo_test.go")
     r = sh(f"go test -vet=off -count=1 -run '^({tests})$' ./{pkgdir}/", wt, timeout=300)
+    if r.returncode == 0 and prop in ("C07", "C19"):
+        # some concurrency demos only fail under the race detector
+        r = sh(f"go test -race -vet=off -count=1 -run '^({tests})$' ./{pkgdir}/", wt, timeout=600)
     os.remove(f"{wt}/{pkgdir}/zz_seed_demo_test.go")
     return r.returncode == 0
 res["demo_passes_without_change"] = rundemo()
